@@ -38,7 +38,9 @@ Proof.
     [reflexivity|intros t cb Hcb; discriminate Hcb|intros t Ht; exfalso; apply Ht; reflexivity|].
   destruct (kview_proj _ _ HK) as (K1 & K2 & K3 & K4 & K5 & K6).
   split; [|split; [|split; [|split; [exact HCi|split; [exact Hsa|exact (ic_keys _ _ HI)]]]]].
-  - constructor; cbn [flat_map]; unfold keys; rewrite ?K2, ?K3, ?K4, ?K5; cbn; try constructor. intros k [].
+  - split.
+    + constructor; cbn [flat_map]; unfold keys; rewrite ?K2, ?K3, ?K4, ?K5; cbn; try constructor. intros k [].
+    + eapply GInv_kview; [exact HK|]. constructor; cbn; try (intros; contradiction); constructor.
   - unfold flags_off. rewrite K2, K3, K4, K5. cbn. auto.
   - intros t cb Hcb Honce Htk. apply Hnt in Hcb. congruence.
 Qed.
@@ -76,7 +78,7 @@ Proof.
   intros E. unfold run in E. destruct (init_invcore P) as (HI & HC & HB).
   pose proof (tops_invariant fuel (p_top P) 0 _ HI HC HB init_TI) as Hp. rewrite E in Hp.
   destruct Hp as (I' & C' & B' & (T & F & _)). unfold quiescent. rewrite B' in T. cbn [app] in T.
-  destruct T as [T1 T2 T3 T4 _ _ _]. cbn [flat_map] in *. destruct F as (F1 & F2 & F3 & F4 & F5).
+  destruct T as [[T1 T2 T3 T4 _ _ _] _]. cbn [flat_map] in *. destruct F as (F1 & F2 & F3 & F4 & F5).
   split; [exact C'|]. split; [exact B'|]. split; [intros t Ht; exact (ic_taken _ _ I' t Ht)|].
   split; [apply keys_nil; exact T4|]. split; [apply keys_nil; exact T1|]. split; [apply keys_nil; exact T2|]. split; [apply keys_nil; exact T3|].
   auto 10.
@@ -88,5 +90,21 @@ Theorem run_never_panics fuel n : run P fuel = Stuck n -> n = 4.
 Proof.
   intros E. unfold run in E. destruct (init_invcore P) as (HI & HC & HB).
   pose proof (tops_invariant fuel (p_top P) 0 _ HI HC HB init_TI) as Hp. rewrite E in Hp. exact Hp.
+Qed.
+
+(* C03/C04: the ghost assertion at the start of every body (Machine.exec, IBody: Stuck 5 unless
+   fresh_claim_b t w) never fails: when a body starts, the entries the readers can see are exactly the entries claimed by
+   that run's own setup, for the system that is running *)
+Theorem readers_expose_own_claim fuel : run P fuel <> Stuck 5.
+Proof. intros E. apply run_never_panics in E. discriminate E. Qed.
+
+(* C03: every claim a setup ever made is empty (manual run: nothing parked, nothing claimed) or is literally the entry
+   list parked by one command, under that command's ticket and for that command's system; tickets are never reused *)
+Theorem run_claims_exact fuel w' : run P fuel = Ok w' ->
+  Forall (claim_ok (g_prep w')) (g_claim w') /\ NoDup (ptickets (g_prep w')).
+Proof.
+  intros E. unfold run in E. destruct (init_invcore P) as (HI & HC & HB).
+  pose proof (tops_invariant fuel (p_top P) 0 _ HI HC HB init_TI) as Hp. rewrite E in Hp.
+  destruct Hp as (_ & _ & _ & ((_ & G) & _)). split; [exact (g_exact _ _ G)|exact (g_uniq _ _ G)].
 Qed.
 End Top.
